@@ -378,10 +378,11 @@ class Monitor:
                             if it is not None and it < e.iter:
                                 nms = e.names.get(sid)
                                 if nms is not None:
-                                    self._lcd_dep(e, stack, sid, nms, it, bindings, label)
+                                    self._lcd_dep(e, stack, sid, nms, it, bindings, label,
+                                                  frames[e.fid]['lastw'].get(sid))
                         inner = e
                 if do_raw:
-                    self._raw_event(stack, kern_fid, 'R', sid, el, label)
+                    self._raw_event(stack, kern_fid, 'R', sid, el, label, bindings)
             elif tag == 'W':
                 c['writes'] += 1
                 sid = ev[1]
@@ -419,7 +420,7 @@ class Monitor:
                             if fr is not None:
                                 fr['lastw'][sid] = e.node
                 if do_raw:
-                    self._raw_event(stack, kern_fid, 'W' if not ind else 'I', sid, el, label)
+                    self._raw_event(stack, kern_fid, 'W' if not ind else 'I', sid, el, label, bindings)
             elif tag == 'E':
                 node, names, fid = ev[1], ev[2], ev[3]
                 c['activations'] += 1
@@ -473,16 +474,15 @@ class Monitor:
         except Exception:  # pylint: disable=broad-except
             return str(node)[:160]
 
-    def _call_detail(self, e, sid, nms, bindings):
+    def _call_detail(self, e, sid, nms, bindings, defines=False):
         from loki import FindVariables
         b = bindings.get(id(e.node), ())
         enr = 'enriched' if e.node.routine else 'unenriched'
         for _dn, intent, kind, bsid, _actual in b:
             if bsid == sid:
-                d = f'{enr}:intent-{intent or "none"}'
-                if self._is_subscript_in_call(e.node, nms):
-                    d += ':also-subscript-of-another-actual'
-                return d
+                if defines and self._is_subscript_in_call(e.node, nms):
+                    return 'argument-is-also-subscript-of-another-actual'
+                return f'{enr}:intent-{intent or "none"}'
         for _dn, intent, kind, bsid, actual in b:
             if any(v.name.lower() in nms for v in FindVariables().visit(actual)):
                 return f'{enr}:intent-{intent or "none"}:subscript-or-operand-of-actual'
@@ -582,7 +582,7 @@ class Monitor:
         node = e.node
         t = type(node).__name__
         if isinstance(node, ir.CallStatement):
-            detail = self._call_detail(e, sid, nms, bindings)
+            detail = self._call_detail(e, sid, nms, bindings, defines=True)
         elif isinstance(node, ir.Assignment):
             detail = 'lhs'
         else:
@@ -611,10 +611,8 @@ class Monitor:
             if pw is not None and pn is not None and pw >= pn:
                 detail = 'loop-back-edge'
             elif isinstance(w, ir.CallStatement):
-                b = bindings.get(id(w), ())
-                intents = [f'{x[1] or "none"}' for x in b if x[3] == sid]
-                enr = 'enriched' if w.routine else 'unenriched'
-                detail = f'after-call:{enr}:intent-{intents[0] if intents else "unknown"}'
+                fake = Entry(w, fr['names'], None, False)
+                detail = 'after-call:' + self._call_detail(fake, sid, nms, bindings, defines=True)
             else:
                 detail = f'lost-definition:{self._lca_type(routine, w, node)}:{node_kind(w)}'
         key = f'live:{detail}'
@@ -638,7 +636,7 @@ class Monitor:
         return 'none'
 
     # -- C27: loop-carried ----------------------------------------------------------
-    def _lcd_dep(self, e, stack, sid, nms, it, bindings, label):
+    def _lcd_dep(self, e, stack, sid, nms, it, bindings, label, writer=None):
         from loki.analyse.dataflow_analysis import loop_carried_dependencies
         loop = e.node
         self.counters['lcd_carried'] += 1
@@ -672,10 +670,8 @@ class Monitor:
                 prev = x
             inner = cin
             detail = 'use-missing:' + self._uses_detail(culprit, cin, culprit.names.get(sid) or nms, sid, bindings)
-            if not in_d:
-                detail += '+definition-missing'
         else:
-            detail = 'definition-missing'
+            detail = self._lcd_def_detail(e, writer, sid, nms, bindings)
         key = f'lcd:{detail}'
         self.report(key, f'{nms[0]} written in iteration {it} is read in iteration {e.iter} but is not reported by '
                     'loop_carried_dependencies',
@@ -683,8 +679,17 @@ class Monitor:
                      'reading_child': self._src(inner.node) if inner is not None else None,
                      'loop_uses': sorted(uses), 'loop_defines': sorted(defs)})
 
+    def _lcd_def_detail(self, e, writer, sid, nms, bindings):
+        ir = self.ir
+        if isinstance(writer, ir.CallStatement):
+            fake = Entry(writer, e.names, e.fid, False)
+            return 'definition-missing:CallStatement:' + self._call_detail(fake, sid, nms, bindings, defines=True)
+        if writer is not None:
+            return f'definition-missing:{node_kind(writer)}'
+        return 'definition-missing:unknown-writer'
+
     # -- C27: read after write -------------------------------------------------------
-    def _raw_event(self, stack, kern_fid, kind, sid, el, label):
+    def _raw_event(self, stack, kern_fid, kind, sid, el, label, bindings):
         for t in self.raw_tasks:
             cls = t['cls']
             pos = None
@@ -711,7 +716,7 @@ class Monitor:
                     base = self._kern_name(sid, nms, stack, kern_fid)
                     t['deps'].add(base)
                     if not any(n in t['reported'] for n in nms) and base not in t['reported']:
-                        self._diag_raw(t, nms, base, lw[1], node, label)
+                        self._diag_raw(t, nms, base, lw[1], node, label, sid, bindings, names)
 
     def _kern_name(self, sid, nms, stack, kern_fid):
         for e in stack:
@@ -721,7 +726,7 @@ class Monitor:
                     return n[0]
         return nms[0]
 
-    def _diag_raw(self, t, nms, base, wnode, rnode, label):
+    def _diag_raw(self, t, nms, base, wnode, rnode, label, sid, bindings, kern_names):
         from loki.analyse.dataflow_analysis import FindWrites, FindReads
         ir = self.ir
         names = set(nms) | {base}
@@ -729,36 +734,41 @@ class Monitor:
         fw.visit(t['ir'])
         wnames = symnames(fw.writes)
         idx, order = preorder(t['ir'])
-        if not names & wnames:
-            if isinstance(wnode, ir.CallStatement):
-                detail = 'write-not-found:CallStatement:' + ('enriched' if wnode.routine else 'unenriched')
-            else:
-                detail = f'write-not-found:{node_kind(wnode)}'
-            alias_w = self._alias_names(t, wnode, names)
-            if alias_w & wnames:
-                detail = 'associate-name-differs-between-write-and-read'
+
+        def calld(node, defines):
+            fake = Entry(node, kern_names, None, False)
+            return 'CallStatement:' + self._call_detail(fake, sid, nms, bindings, defines=defines)
+        # names under which the writing / reading statement know the variable (associate names)
+        w_as = names & self.nsets(wnode)[0]
+        r_as = names & self.nsets(rnode)[1]
+        if w_as and r_as and not w_as & r_as:
+            detail = 'associate-name-differs-between-write-and-read'
+        elif not names & wnames:
+            detail = 'write-not-found:' + (calld(wnode, True) if isinstance(wnode, ir.CallStatement)
+                                           else node_kind(wnode))
         else:
             fr = FindReads(start=t['node'], candidate_set=fw.writes, clear_candidates_on_write=False)
             fr.visit(t['ir'])
             if names & symnames(fr.reads):
                 # reported when candidates are not cleared: find the clearing write
+                # (FindReads treats every LeafNode -- also SELECT CASE and WHERE constructs -- as one statement)
                 p = idx[id(t['node'])]
                 clearer = None
                 for n in order[p:]:
-                    if not child_bodies(n) and names & self.nsets(n)[0]:
+                    if isinstance(n, ir.LeafNode) and names & self.nsets(n)[0]:
                         clearer = n
                         break
                 kind = node_kind(clearer) if clearer is not None else 'unknown'
-                if kind in ('Assignment-scalar', 'Assignment-array'):
+                if isinstance(clearer, (ir.MultiConditional, ir.MaskedStatement)):
+                    detail = f'candidate-cleared-by-conditional-definition-in:{kind}'
+                elif kind in ('Assignment-scalar', 'Assignment-array'):
                     detail = f'candidate-cleared-by-conditional-definition-in:{self._cond_context(t, clearer)}'
                 else:
                     detail = f'candidate-cleared-by-partial-definition:{kind}'
-            elif isinstance(rnode, (ir.MultiConditional, ir.MaskedStatement, ir.Associate)):
-                detail = f'read-not-found:{type(rnode).__name__}-header'
-            elif self._alias_names(t, rnode, names) & symnames(fr.reads | fw.writes) - names:
-                detail = 'associate-name-differs-between-write-and-read'
+            elif isinstance(rnode, ir.Associate):
+                detail = 'read-not-found:Associate-header'
             elif isinstance(rnode, ir.CallStatement):
-                detail = 'read-not-found:CallStatement:' + ('enriched' if rnode.routine else 'unenriched')
+                detail = 'read-not-found:' + calld(rnode, False)
             else:
                 detail = f'read-not-found:{node_kind(rnode)}'
         key = f'raw:{detail}'
@@ -850,7 +860,7 @@ def raw_hazard(stmts, p):
             return 'partial-definition-inside-compound'
         if s['R'] & pend & wbefore:
             return 'read-after-partial-definition'
-        if (s['has'] & {'select', 'where', 'associate'}) and (s['hdr'] & wbefore):
+        if ('associate' in s['has']) and (s['hdr'] & wbefore):
             return 'header-read'
         pend |= partial
         pend -= s['M']
